@@ -2566,7 +2566,7 @@ func _return(n *node) {
 		case errorT:
 			values[i] = genInterfaceWrapper(c, t.TypeOf())
 		case funcT:
-			values[i] = genValue(c)
+			values[i] = genFuncValue(c)
 		case valueT:
 			switch t.rtype.Kind() {
 			case reflect.Interface:
